@@ -76,6 +76,21 @@ void _ZNSt7__cxx1112basic_stringIcSt11char_traitsIcESaIcEEC1EOS4_(struct std_str
 /* size_t find(const string&, size_t pos) const: npos or a position p with p + size(s) <= size() */
 unsigned long _ZNKSt7__cxx1112basic_stringIcSt11char_traitsIcESaIcEE4findERKS4_m(const struct std_string *this, const struct std_string *s, unsigned long pos)
 { LIVE((void *)this, 32, "std::string::find"); LIVE((void *)s, 32, "std::string::find(arg)"); (void)pos; unsigned long p = __g2c_nondet_ulong(); if (__g2c_nondet_bool()) return ~0ul; __CPROVER_assume(p >= pos && p <= SZ(this) && SZ(s) <= SZ(this) - p); return p; }
+/* std::stod / std::stoll / std::stoull: a number, or std::invalid_argument / std::out_of_range */
+double __g2c_nondet_double(void); long __g2c_nondet_long(void);
+char _ZTISt16invalid_argument_obj[16];
+static _Bool __sto_fails(void)
+{
+  if (__g2c_nondet_bool()) { __cxa_throw(_ZTISt16invalid_argument_obj, G2C_EXC_invalid_argument, 0); return 1; }
+  if (__g2c_nondet_bool()) { __throw_out_of_range(); return 1; }
+  return 0;
+}
+double _ZNSt7__cxx114stodERKNS_12basic_stringIcSt11char_traitsIcESaIcEEEPm(const struct std_string *s, unsigned long *idx)
+{ LIVE((void *)s, 32, "std::stod"); if (__sto_fails()) return 0.0; if (idx) *idx = __g2c_nondet_ulong(); return __g2c_nondet_double(); }
+long _ZNSt7__cxx115stollERKNS_12basic_stringIcSt11char_traitsIcESaIcEEEPmi(const struct std_string *s, unsigned long *idx, int base)
+{ (void)base; LIVE((void *)s, 32, "std::stoll"); if (__sto_fails()) return 0; if (idx) *idx = __g2c_nondet_ulong(); return __g2c_nondet_long(); }
+unsigned long _ZNSt7__cxx116stoullERKNS_12basic_stringIcSt11char_traitsIcESaIcEEEPmi(const struct std_string *s, unsigned long *idx, int base)
+{ (void)base; LIVE((void *)s, 32, "std::stoull"); if (__sto_fails()) return 0; if (idx) *idx = __g2c_nondet_ulong(); return __g2c_nondet_ulong(); }
 /* replace(pos, n1, n2, c): throws out_of_range if pos > size() */
 struct std_string *_ZNSt7__cxx1112basic_stringIcSt11char_traitsIcESaIcEE7replaceEmmmc(struct std_string *this, unsigned long pos, unsigned long n1, unsigned long n2, char c)
 {
@@ -155,7 +170,8 @@ struct vval_iterator { _Alignas(8) unsigned char __opaque[8]; };   /* __normal_i
 struct vval_citerator { _Alignas(8) unsigned char __opaque[8]; };   /* __normal_iterator: one pointer */
 #endif
 #define ITER_IDX(it) CW(it, 0)
-struct str_iterator _ZNSt7__cxx1112basic_stringIcSt11char_traitsIcESaIcEE5beginEv(struct std_string *this) { struct str_iterator it; LIVE(this, 32, "std::string::begin"); ITER_IDX(&it) = 0; return it; }
+unsigned long g_walk_size = ~0ul;
+struct str_iterator _ZNSt7__cxx1112basic_stringIcSt11char_traitsIcESaIcEE5beginEv(struct std_string *this) { struct str_iterator it; LIVE(this, 32, "std::string::begin"); ITER_IDX(&it) = 0; g_walk_size = SZ(this); return it; }
 struct vchar_iterator _ZNSt6vectorIcSaIcEE5beginEv(struct vec_char *this) { struct vchar_iterator it; LIVE(this, 24, "std::vector<char>::begin"); ITER_IDX(&it) = 0; return it; }
 struct vval_iterator _ZNSt6vectorIN4bloc5ValueESaIS1_EE5beginEv(struct vec_Value *this) { struct vval_iterator it; LIVE(this, 24, "std::vector<Value>::begin"); ITER_IDX(&it) = 0; return it; }
 struct str_iterator _ZNK9__gnu_cxx17__normal_iteratorIPcNSt7__cxx1112basic_stringIcSt11char_traitsIcESaIcEEEEplEl(const struct str_iterator *this, long n) { struct str_iterator it; ITER_IDX(&it) = ITER_IDX(this) + (unsigned long)n; return it; }
@@ -190,6 +206,16 @@ void _ZNSt6vectorIcSaIcEE6assignIN9__gnu_cxx17__normal_iteratorIPcNSt7__cxx1112b
 void _ZN4bloc5ValueC1EPSt6vectorIcSaIcEE(struct Value *this, struct vec_char *v)
 { this->_type._vptr_Type = 0; this->_type._major = 6; this->_type._minor = 0; this->_type._level = 0; this->_flags = v ? 1 : 0; this->_value.p = v; }
 #endif
+/* walking a string through a const_iterator: ++, != (against an iterator), *; the character read is arbitrary (contents are
+ * not modelled).  The position dereferenced must be inside [begin, end): *end() is undefined for an iterator. */
+struct str_citerator *_ZN9__gnu_cxx17__normal_iteratorIPKcNSt7__cxx1112basic_stringIcSt11char_traitsIcESaIcEEEEppEv(struct str_citerator *this) { ITER_IDX(this) = ITER_IDX(this) + 1; return this; }
+_Bool _ZN9__gnu_cxxneIPKcPcNSt7__cxx1112basic_stringIcSt11char_traitsIcESaIcEEEEEbRKNS_17__normal_iteratorIT_T1_EERKNSA_IT0_SC_EE(const struct str_citerator *a, const struct str_iterator *b) { return ITER_IDX(a) != ITER_IDX(b); }
+/* libstdc++ string iterators are pointers into a NUL-terminated buffer: reading the position size() yields '\0'
+ * (ASSUMED defined, as data()[size()] is); any position beyond it is out of bounds.  g_walk_size is the size of the
+ * string whose begin() was taken last. */
+const char *_ZNK9__gnu_cxx17__normal_iteratorIPKcNSt7__cxx1112basic_stringIcSt11char_traitsIcESaIcEEEEdeEv(const struct str_citerator *this)
+{ __CPROVER_assert(ITER_IDX(this) <= g_walk_size, "string const_iterator dereferenced inside [begin, end] (the terminator may be read)");
+  g_str_char = (ITER_IDX(this) == g_walk_size) ? 0 : __g2c_nondet_char(); return &g_str_char; }
 /* end(), insert(pos, value), insert(pos, first, last): positions up to size() are valid; the range [first, last) is read from another container */
 struct vchar_iterator _ZNSt6vectorIcSaIcEE3endEv(struct vec_char *this) { struct vchar_iterator it; LIVE(this, 24, "std::vector<char>::end"); ITER_IDX(&it) = SZ(this); return it; }
 struct str_iterator _ZNSt7__cxx1112basic_stringIcSt11char_traitsIcESaIcEE3endEv(struct std_string *this) { struct str_iterator it; LIVE(this, 32, "std::string::end"); ITER_IDX(&it) = SZ(this); return it; }
